@@ -61,3 +61,79 @@ def symbolic_domain(ip, origin='domain'):
                   'DST_III_coeffs': Arr(N.sym('k') * N.sym('dk') / (4 * N.PI * N.PI), origin + '.DST_III_coeffs', ip)},
             origin)
     return o
+
+
+# ---------------------------------------------------------------------------------------------
+# the PRISM object as seen by post-processing code
+# ---------------------------------------------------------------------------------------------
+SPATIAL = (('totalCorr', 'HF'), ('directCorr', 'CF'), ('omega', 'OmF'))
+
+
+def _vt(ip, cls, types, name, fname, origin):
+    o = NAT.new_valuetable(ip, cls, types, name, elem=lambda ip2, t, n: Num(N.NF.atom(('fn', fname, ip2.canon_label(t)))))
+    o.origin = origin
+    return o
+
+
+def system_world(ip, origin='PRISM.sys', table_elems=None):
+    prog = ip.prog
+    types = Types()
+    vtc = prog.cls('pyPRISM.core.ValueTable::ValueTable')
+    ptc = prog.cls('pyPRISM.core.PairTable::PairTable')
+    dom = symbolic_domain(ip, origin + '.domain')
+    dens = Obj(prog.cls('pyPRISM.core.Density::Density'), {
+        'types': types,
+        'density': _vt(ip, vtc, types, 'density', 'rho', origin + '.density.density'),
+        'total': Num(ip.declare('rho_total')),
+        'pair': matrixarray(ip, 'rho_pair', 'NonSpatial', origin + '.density.pair', kind='mat1', types=types),
+        'site': matrixarray(ip, 'rho_site', 'NonSpatial', origin + '.density.site', kind='mat1', types=types),
+    }, origin + '.density')
+    sig = NAT.new_pairtable(ip, ptc, types, 'sigma', True,
+                            elem=lambda ip2, a, b, n: Num(N.NF.atom(('fn', 'sig') + tuple(sorted((ip2.canon_label(a), ip2.canon_label(b)))))))
+    sig.origin = origin + '.diameter.sigma'
+    diam = Obj(prog.cls('pyPRISM.core.Diameter::Diameter'), {
+        'types': types,
+        'diameter': _vt(ip, vtc, types, 'diameter', 'dia', origin + '.diameter.diameter'),
+        'volume': _vt(ip, vtc, types, 'volume', 'vol', origin + '.diameter.volume'),
+        'sigma': sig,
+    }, origin + '.diameter')
+    attrs = {'types': types, 'rank': Num(ip.declare('n_types', integer=True)), 'kT': Num(ip.declare('kT')),
+             'domain': dom, 'density': dens, 'diameter': diam}
+    table_elems = table_elems or {}
+    for nm in ('potential', 'closure', 'omega'):
+        t = NAT.new_pairtable(ip, ptc, types, nm, True, elem=table_elems.get(nm))
+        t.origin = origin + '.' + nm
+        attrs[nm] = t
+    ip.nonneg.add('n_types')
+    return Obj(prog.cls('pyPRISM.core.System::System'), attrs, origin)
+
+
+def prism_world(ip, spaces=None, table_elems=None):
+    """abstract solved PRISM object.  spaces: {'totalCorr'|'directCorr'|'omega': 'Real'|'Fourier'};
+    the *content* of each spatial array is one symbol (its Fourier representation XF): an array that is
+    currently in real space holds toR(XF)."""
+    NAT.install_containers(ip)
+    spaces = dict(spaces or {})
+    prog = ip.prog
+    sysobj = system_world(ip, 'PRISM.sys', table_elems)
+    types = sysobj.attrs['types']
+    attrs = {'sys': sysobj}
+    for nm, sym in SPATIAL:
+        sp = spaces.get(nm, 'Fourier')
+        ip.declare(sym, 'tensor', symmetric=True)
+        term = N.sym(sym) if sp == 'Fourier' else N.fn('toR', N.sym(sym))
+        attrs[nm] = matrixarray(ip, sym, sp, 'PRISM.' + nm, term=term, types=types)
+    for nm, sym, sp in (('GammaIn', 'Gin', 'Real'), ('GammaOut', 'Gout', 'Real'), ('OC', 'OC0', 'Fourier'),
+                        ('IOC', 'IOC0', 'Fourier')):
+        attrs[nm] = matrixarray(ip, sym, sp, 'PRISM.' + nm, types=types, symmetric=False)
+    icls = prog.cls('pyPRISM.core.IdentityMatrixArray::IdentityMatrixArray')
+    iden = matrixarray(ip, 'Iden', 'Fourier', 'PRISM.I', types=types)
+    iden.cls = icls
+    attrs['I'] = iden
+    ip.declare('x_last', 'curve')
+    ip.declare('y_last', 'curve')
+    attrs['x'] = Arr(N.sym('x_last'), 'PRISM.x', ip)
+    attrs['y'] = Arr(N.sym('y_last'), 'PRISM.y', ip)
+    attrs['minimize_result'] = Obj('OptimizeResult', {'x': Arr(N.sym('x_last'), 'PRISM.minimize_result.x', ip),
+                                                      'success': TRUE}, 'PRISM.minimize_result')
+    return Obj(prog.cls('pyPRISM.core.PRISM::PRISM'), attrs, 'PRISM')
